@@ -196,6 +196,11 @@ Section Interp.
   Lemma eq_opt_some o n : eq_opt o n = true -> o <> None.
   Proof. destruct o; simpl; congruence. Qed.
 
+  (* the injected storage-write failure fires at this step *)
+  Definition hits (e : eff) (s : rstate) : Prop :=
+    dead s = false /\ is_cluster_call e = false /\ is_storage_write e = true /\
+    eq_opt (crash f) (nmut s) = false /\ eq_opt (wfail f) (nwrites s) = true.
+
   (* one step from a live process *)
   Lemma step_cases e (s : rstate) :
     dead s = false ->
@@ -203,7 +208,7 @@ Section Interp.
     \/ (dead (fst (step e s)) = false /\
         ((is_cluster_call e = true /\ led (fst (step e s)) = led s /\
           exists evs, tr (fst (step e s)) = (tr s ++ map TKube evs)%list)
-         \/ (is_cluster_call e = false /\ is_storage_write e = true /\ wfail f <> None /\
+         \/ (is_cluster_call e = false /\ is_storage_write e = true /\ (wfail f <> None /\ hits e s) /\
              led (fst (step e s)) = led s /\ tr (fst (step e s)) = tr s /\ snd (step e s) = dresp e)
          \/ (is_cluster_call e = false /\ is_storage_write e = true /\
              led (fst (step e s)) = fst (fst (storage_apply dresp e (led s))) /\
@@ -213,14 +218,17 @@ Section Interp.
              snd (step e s) = snd (fst (storage_apply dresp e (led s)))))).
   Proof.
     intros Hd. unfold Seq.step. rewrite Hd. cbn [negb andb].
-    destruct ((is_storage_write e || is_cluster_mutation e) && eq_opt (crash f) (nmut s)).
+    destruct ((is_storage_write e || is_cluster_mutation e) && eq_opt (crash f) (nmut s)) eqn:Hcr.
     - left. cbn [dead]. destruct (is_storage_write e || is_cluster_call e); cbn; auto.
       destruct (storage_apply dresp e (led s)) as [[? ?] ?]. cbn. auto.
     - rewrite Hd. destruct (is_cluster_call e) eqn:Hc.
       + right. destruct (kh e (ks s)) as [[k' r] evs]. cbn. split; auto. left. eauto.
       + destruct (is_storage_write e) eqn:Hw.
         * destruct (eq_opt (wfail f) (nwrites s)) eqn:Hf.
-          -- right. cbn. split; auto. right. left. apply eq_opt_some in Hf. auto 10.
+          -- right. cbn. split; auto. right. left.
+             assert (Hh : hits e s).
+             { unfold hits. cbn [orb andb] in Hcr. auto 10. }
+             apply eq_opt_some in Hf. auto 10.
           -- right. destruct (storage_apply dresp e (led s)) as [[l' r] evs]. cbn. split; auto.
              right. right. left. auto 10.
         * right. destruct (storage_apply dresp e (led s)) as [[l' r] evs]. cbn. split; auto.
@@ -273,37 +281,83 @@ Section Interp.
   (* ---------------------------------------------------------------- *)
   (* 4. weakest preconditions over (ledger, created revisions)          *)
 
-  Definition wpA {A} (G : list release -> list nat -> Prop) (p : prog A)
+  (* along the run of p from s, the injected write failure (if it fires) hits an effect in F *)
+  Fixpoint fails_only {A} (F : eff -> Prop) (p : prog A) (s : rstate) : Prop :=
+    match p with
+    | Ret _ => True
+    | Eff e k => (hits e s -> F e) /\ fails_only F (k (snd (step e s))) (fst (step e s))
+    end.
+
+  Lemma fails_only_bind {A B} F (p : prog A) (k : A -> prog B) : forall s,
+    fails_only F (bind p k) s <->
+    fails_only F p s /\ fails_only F (k (snd (run p s))) (fst (run p s)).
+  Proof.
+    induction p as [a|e c IH]; intros s; simpl; [tauto|].
+    rewrite IH. destruct (step e s) as [s' r]. simpl. tauto.
+  Qed.
+
+  Lemma fails_only_weaken {A} (F F' : eff -> Prop) (p : prog A) :
+    (forall e, F e -> F' e) -> forall s, fails_only F p s -> fails_only F' p s.
+  Proof.
+    intros H. induction p as [a|e k IH]; intros s; simpl; auto. intros [H1 H2]. split; auto.
+  Qed.
+
+  Lemma fails_only_none {A} F (p : prog A) : wfail f = None -> forall s, fails_only F p s.
+  Proof.
+    intros Hn. induction p as [a|e k IH]; intros s; simpl; auto. split; auto.
+    intros [_ [_ [_ [_ X]]]]. rewrite Hn in X. discriminate X.
+  Qed.
+
+  Lemma fails_only_all {A} (p : prog A) : forall s, fails_only (fun _ => True) p s.
+  Proof. induction p as [a|e k IH]; intros s; simpl; auto. Qed.
+
+  Lemma fails_only_dead {A} F (p : prog A) : forall s, dead s = true -> fails_only F p s.
+  Proof.
+    induction p as [a|e k IH]; intros s Hd; simpl; auto. split.
+    - intros [X _]. congruence.
+    - apply IH. rewrite (dead_step e s Hd). exact Hd.
+  Qed.
+
+  Definition wpA {A} (F : eff -> Prop) (G : list release -> list nat -> Prop) (p : prog A)
              (Q : list release -> list nat -> A -> Prop) (l : list release) (cs : list nat) : Prop :=
-    forall s : rstate, led s = l -> creates (tr s) = cs -> dead s = false ->
+    forall s : rstate, led s = l -> creates (tr s) = cs -> dead s = false -> fails_only F p s ->
       (dead (fst (run p s)) = true ->
          G (led (fst (run p s))) (creates (tr (fst (run p s))))) /\
       (dead (fst (run p s)) = false ->
          Q (led (fst (run p s))) (creates (tr (fst (run p s)))) (snd (run p s))).
 
   Implicit Types G : list release -> list nat -> Prop.
+  Implicit Types F : eff -> Prop.
 
-  Lemma wp_ret {A} G (a : A) (Q : list release -> list nat -> A -> Prop) l cs :
-    Q l cs a -> wpA G (Ret a) Q l cs.
-  Proof. intros H s Hl Hc Hd. simpl. subst. split; [congruence|auto]. Qed.
+  Lemma wp_ret {A} F G (a : A) (Q : list release -> list nat -> A -> Prop) l cs :
+    Q l cs a -> wpA F G (Ret a) Q l cs.
+  Proof. intros H s Hl Hc Hd _. simpl. subst. split; [congruence|auto]. Qed.
 
-  Lemma wp_bind {A B} G (p : prog A) (k : A -> prog B) Q l cs :
-    wpA G p (fun l1 cs1 a => wpA G (k a) Q l1 cs1) l cs -> wpA G (bind p k) Q l cs.
+  Lemma wp_bind {A B} F G (p : prog A) (k : A -> prog B) Q l cs :
+    wpA F G p (fun l1 cs1 a => wpA F G (k a) Q l1 cs1) l cs -> wpA F G (bind p k) Q l cs.
   Proof.
-    intros H s Hl Hc Hd. rewrite run_bind. destruct (H s Hl Hc Hd) as [H1 H2].
+    intros H s Hl Hc Hd Hf. rewrite run_bind. apply fails_only_bind in Hf. destruct Hf as [Hf1 Hf2].
+    destruct (H s Hl Hc Hd Hf1) as [H1 H2].
     destruct (dead (fst (run p s))) eqn:E.
     - rewrite (dead_run _ _ E). rewrite E. split; [auto|congruence].
     - apply (H2 eq_refl); auto.
   Qed.
 
-  Lemma wp_conseq {A} (G G' : list release -> list nat -> Prop) (p : prog A)
+  Lemma wp_conseq {A} F (G G' : list release -> list nat -> Prop) (p : prog A)
         (Q Q' : list release -> list nat -> A -> Prop) l cs :
-    wpA G p Q l cs ->
+    wpA F G p Q l cs ->
     (forall l1 cs1, G l1 cs1 -> G' l1 cs1) ->
     (forall l1 cs1 a, Q l1 cs1 a -> Q' l1 cs1 a) ->
-    wpA G' p Q' l cs.
+    wpA F G' p Q' l cs.
   Proof.
-    intros H HG HQ s Hl Hc Hd. destruct (H s Hl Hc Hd) as [H1 H2]. split; auto.
+    intros H HG HQ s Hl Hc Hd Hf. destruct (H s Hl Hc Hd Hf) as [H1 H2]. split; auto.
+  Qed.
+
+  (* fewer failable writes: a weaker assumption on the fault plan *)
+  Lemma wp_fail_weaken {A} F F' G (p : prog A) Q l cs :
+    (forall e, F' e -> F e) -> wpA F G p Q l cs -> wpA F' G p Q l cs.
+  Proof.
+    intros HF H s Hl Hc Hd Hf. apply H; auto. eapply fails_only_weaken; eauto.
   Qed.
 
   (* a program of a class whose steps respect a relation on (ledger, creates) *)
@@ -313,43 +367,43 @@ Section Interp.
     (forall l0 c0 l1 c1 l2 c2, R l0 c0 l1 c1 -> R l1 c1 l2 c2 -> R l0 c0 l2 c2) ->
     (forall e s, P e -> R (led s) (creates (tr s)) (led (fst (step e s))) (creates (tr (fst (step e s))))) ->
     all_eff P p ->
-    wpA (R l cs) p (fun l1 cs1 _ => R l cs l1 cs1) l cs.
+    forall F, wpA F (R l cs) p (fun l1 cs1 _ => R l cs l1 cs1) l cs.
   Proof.
-    intros Hrefl Htrans Hstep Hp s Hl Hc Hd.
+    intros Hrefl Htrans Hstep Hp F s Hl Hc Hd _.
     pose proof (ae_run P (fun a b => R (led a) (creates (tr a)) (led b) (creates (tr b))) p
                   (fun s0 => Hrefl _ _) (fun a b c => Htrans _ _ _ _ _ _) Hstep Hp s) as H.
     subst. split; auto.
   Qed.
 
   (* reads *)
-  Lemma wp_history {A} G (k : list release -> prog A) Q l cs :
-    wpA G (k l) Q l cs -> wpA G (Eff SHistory k) Q l cs.
+  Lemma wp_history {A} F G (k : list release -> prog A) Q l cs :
+    wpA F G (k l) Q l cs -> wpA F G (Eff SHistory k) Q l cs.
   Proof.
-    intros H s Hl Hc Hd. rewrite run_eff. rewrite (step_read SHistory s eq_refl eq_refl).
-    cbn [fst snd storage_apply]. rewrite Hl. now apply H.
+    intros H s Hl Hc Hd [_ Hf]. rewrite run_eff. rewrite (step_read SHistory s eq_refl eq_refl) in *.
+    cbn [fst snd storage_apply] in *. rewrite Hl in *. now apply H.
   Qed.
 
-  Lemma wp_deployed_all {A} G (k : list release -> prog A) Q l cs :
-    wpA G (k (filter (fun r => status_eqb (st r) SDeployed) l)) Q l cs ->
-    wpA G (Eff SDeployedAll k) Q l cs.
+  Lemma wp_deployed_all {A} F G (k : list release -> prog A) Q l cs :
+    wpA F G (k (filter (fun r => status_eqb (st r) SDeployed) l)) Q l cs ->
+    wpA F G (Eff SDeployedAll k) Q l cs.
   Proof.
-    intros H s Hl Hc Hd. rewrite run_eff. rewrite (step_read SDeployedAll s eq_refl eq_refl).
-    cbn [fst snd storage_apply]. rewrite Hl. now apply H.
+    intros H s Hl Hc Hd [_ Hf]. rewrite run_eff. rewrite (step_read SDeployedAll s eq_refl eq_refl) in *.
+    cbn [fst snd storage_apply] in *. rewrite Hl in *. now apply H.
   Qed.
 
-  Lemma wp_get {A} G v (k : option release -> prog A) Q l cs :
-    wpA G (k (find (fun r => Nat.eqb (rev r) v) l)) Q l cs -> wpA G (Eff (SGet v) k) Q l cs.
+  Lemma wp_get {A} F G v (k : option release -> prog A) Q l cs :
+    wpA F G (k (find (fun r => Nat.eqb (rev r) v) l)) Q l cs -> wpA F G (Eff (SGet v) k) Q l cs.
   Proof.
-    intros H s Hl Hc Hd. rewrite run_eff. rewrite (step_read (SGet v) s eq_refl eq_refl).
-    cbn [fst snd storage_apply]. rewrite Hl. now apply H.
+    intros H s Hl Hc Hd [_ Hf]. rewrite run_eff. rewrite (step_read (SGet v) s eq_refl eq_refl) in *.
+    cbn [fst snd storage_apply] in *. rewrite Hl in *. now apply H.
   Qed.
 
   (* cluster calls: any answer; the process may die here *)
-  Lemma wp_cluster {A} G e (k : resp e -> prog A) Q l cs :
+  Lemma wp_cluster {A} F G e (k : resp e -> prog A) Q l cs :
     is_cluster_call e = true ->
-    G l cs -> (forall r, wpA G (k r) Q l cs) -> wpA G (Eff e k) Q l cs.
+    G l cs -> (forall r, wpA F G (k r) Q l cs) -> wpA F G (Eff e k) Q l cs.
   Proof.
-    intros He HG H s Hl Hc Hd. rewrite run_eff.
+    intros He HG H s Hl Hc Hd [_ Hf]. rewrite run_eff.
     destruct (step_cases e s Hd) as [[D [L T]]|[D C]].
     - rewrite (dead_run _ _ D). rewrite D, L, T, Hl, Hc. split; [auto|congruence].
     - destruct C as [[_ [L [evs T]]]|[[X _]|[[X _]|[X _]]]]; try congruence.
@@ -358,28 +412,28 @@ Section Interp.
   Qed.
 
   (* storage writes: die, fail (only if the fault plan has a write failure), or apply *)
-  Lemma wp_write {A} G e (k : resp e -> prog A) Q l cs :
+  Lemma wp_write {A} F G e (k : resp e -> prog A) Q l cs :
     is_cluster_call e = false -> is_storage_write e = true ->
     G l cs ->
-    (wfail f <> None -> wpA G (k (dresp e)) Q l cs) ->
-    wpA G (k (snd (fst (storage_apply dresp e l)))) Q
+    (wfail f <> None -> F e -> wpA F G (k (dresp e)) Q l cs) ->
+    wpA F G (k (snd (fst (storage_apply dresp e l)))) Q
         (fst (fst (storage_apply dresp e l))) (cs ++ creates (snd (storage_apply dresp e l))) ->
-    wpA G (Eff e k) Q l cs.
+    wpA F G (Eff e k) Q l cs.
   Proof.
-    intros Hcl Hw HG Hfail Happ s Hl Hc Hd. rewrite run_eff.
+    intros Hcl Hw HG Hfail Happ s Hl Hc Hd [Hh Hf]. rewrite run_eff.
     destruct (step_cases e s Hd) as [[D [L T]]|[D C]].
     - rewrite (dead_run _ _ D). rewrite D, L, T, Hl, Hc. split; [auto|congruence].
-    - destruct C as [[X _]|[[_ [_ [F [L [T R]]]]]|[[_ [_ [L [T R]]]]|[_ [X _]]]]]; try congruence.
-      + rewrite R. apply Hfail; auto; congruence.
-      + rewrite R. rewrite Hl in *. apply Happ; auto.
+    - destruct C as [[X _]|[[_ [_ [[Fl Hit] [L [T R]]]]]|[[_ [_ [L [T R]]]]|[_ [X _]]]]]; try congruence.
+      + rewrite R in *. apply Hfail; auto; congruence.
+      + rewrite R in *. rewrite Hl in *. apply Happ; auto.
         rewrite T, creates_app, Hc. reflexivity.
   Qed.
 
-  Lemma wp_update {A} G x (k : serr -> prog A) Q l cs :
+  Lemma wp_update {A} F G x (k : serr -> prog A) Q l cs :
     G l cs ->
-    (wfail f <> None -> wpA G (k (dresp (SUpdate x))) Q l cs) ->
-    wpA G (k (if has_rev (rev x) l then SOk else SNotFound)) Q (replace_rev x l) cs ->
-    wpA G (Eff (SUpdate x) k) Q l cs.
+    (wfail f <> None -> F (SUpdate x) -> wpA F G (k (dresp (SUpdate x))) Q l cs) ->
+    wpA F G (k (if has_rev (rev x) l then SOk else SNotFound)) Q (replace_rev x l) cs ->
+    wpA F G (Eff (SUpdate x) k) Q l cs.
   Proof.
     intros HG Hf H. apply wp_write; auto. cbn [storage_apply].
     destruct (has_rev (rev x) l) eqn:E; cbn [fst snd creates flat_map].
@@ -387,11 +441,11 @@ Section Interp.
     - rewrite app_nil_r. rewrite (replace_rev_absent _ _ E) in H. exact H.
   Qed.
 
-  Lemma wp_delete {A} G v (k : serr -> prog A) Q l cs :
+  Lemma wp_delete {A} F G v (k : serr -> prog A) Q l cs :
     G l cs ->
-    (wfail f <> None -> wpA G (k (dresp (SDelete v))) Q l cs) ->
-    wpA G (k (if has_rev v l then SOk else SNotFound)) Q (remove_rev v l) cs ->
-    wpA G (Eff (SDelete v) k) Q l cs.
+    (wfail f <> None -> F (SDelete v) -> wpA F G (k (dresp (SDelete v))) Q l cs) ->
+    wpA F G (k (if has_rev v l then SOk else SNotFound)) Q (remove_rev v l) cs ->
+    wpA F G (Eff (SDelete v) k) Q l cs.
   Proof.
     intros HG Hf H. apply wp_write; auto. cbn [storage_apply].
     destruct (has_rev v l) eqn:E; cbn [fst snd creates flat_map].
@@ -399,12 +453,12 @@ Section Interp.
     - rewrite app_nil_r. rewrite (remove_rev_absent _ _ E) in H. exact H.
   Qed.
 
-  Lemma wp_create {A} G x (k : serr -> prog A) Q l cs :
+  Lemma wp_create {A} F G x (k : serr -> prog A) Q l cs :
     G l cs ->
-    (wfail f <> None -> wpA G (k (dresp (SCreate x))) Q l cs) ->
-    (has_rev (rev x) l = true -> wpA G (k SExists) Q l cs) ->
-    (has_rev (rev x) l = false -> wpA G (k SOk) Q (l ++ [x])%list (cs ++ [rev x])%list) ->
-    wpA G (Eff (SCreate x) k) Q l cs.
+    (wfail f <> None -> F (SCreate x) -> wpA F G (k (dresp (SCreate x))) Q l cs) ->
+    (has_rev (rev x) l = true -> wpA F G (k SExists) Q l cs) ->
+    (has_rev (rev x) l = false -> wpA F G (k SOk) Q (l ++ [x])%list (cs ++ [rev x])%list) ->
+    wpA F G (Eff (SCreate x) k) Q l cs.
   Proof.
     intros HG Hf H1 H2. apply wp_write; auto. cbn [storage_apply].
     destruct (has_rev (rev x) l) eqn:E; cbn [fst snd creates flat_map].
@@ -413,13 +467,14 @@ Section Interp.
   Qed.
 
   (* lifting a wp fact to one operation *)
-  Lemma wp_run_op {A} G (p : prog A) Q l (k0 : K) :
-    wpA G p Q l [] ->
+  Lemma wp_run_op {A} F G (p : prog A) Q l (k0 : K) :
+    wpA F G p Q l [] ->
+    fails_only F p (mkR l k0 0 0 false []) ->
     let s' := fst (run p (mkR l k0 0 0 false [])) in
     (dead s' = true -> G (led s') (creates (tr s'))) /\
     (dead s' = false -> Q (led s') (creates (tr s')) (snd (run p (mkR l k0 0 0 false [])))).
-  Proof. intros H. apply H; reflexivity. Qed.
+  Proof. intros H Hf. apply H; auto. Qed.
 End Interp.
 
-Arguments wpA {K} kh dresp f {A} G p Q l cs.
+Arguments wpA {K} kh dresp f {A} F G p Q l cs.
 Arguments all_eff {A} P p.
